@@ -43,8 +43,19 @@ func (p *ruleSetProcessor) isVersionSupported(version string) bool {
 	return version == config.CurrentRuleSetVersion
 }
 
-func (p *ruleSetProcessor) loadRules(ruleSet *config.RuleSet) ([]rule.Rule, error) {
-	rules := make([]rule.Rule, len(ruleSet.Rules))
+func (p *ruleSetProcessor) loadRules(ruleSet *config.RuleSet) (rules []rule.Rule, err error) {
+	// rule sets arrive at run time from files, endpoints, buckets and the kubernetes API, on goroutines nobody
+	// recovers. Whatever their contents make the factories and the libraries below them do, the worst outcome is
+	// a rejected rule set.
+	defer func() {
+		if rec := recover(); rec != nil {
+			rules = nil
+			err = errorchain.NewWithMessagef(heimdall.ErrInternal,
+				"loading rule set '%s' from '%s' failed: %v", ruleSet.Name, ruleSet.Source, rec)
+		}
+	}()
+
+	rules = make([]rule.Rule, len(ruleSet.Rules))
 
 	for idx, rc := range ruleSet.Rules {
 		rul, err := p.f.CreateRule(ruleSet.Version, ruleSet.Source, rc)
